@@ -6,6 +6,10 @@ TRUSTED = [
     'calc_min/max_length, calc_null_count, calc_non_null_count, calc_nunique, calc_unique_values, '
     'calc_non_integer_values_count, calc_all_non_nulls_boolean, calc_rex_constraint); audited on the '
     'real pandas calculator by the bounded layer',
+    'A-pandas (statistics): for the pandas route, calc_min / calc_max / calc_min_length / calc_max_length / calc_null_count / '
+    'calc_non_null_count / calc_nunique / calc_tdda_type / get_nrecords of PandasConstraintCalculator are VERIFIED against '
+    'the A-calc clauses over a stub of the pandas objects (len, count, min, max, dropna, str.len, nunique at their pandas '
+    'meaning); the remaining calculator methods stay assumed',
     'A-card: ghost counts of the column view (nn + n0 = N; nn > 0 iff a non-null row exists; '
     'nunique = nn iff non-null rows pairwise distinct; nunique >= 1 iff nn >= 1)',
     'A-pigeonhole: all non-null values in a list L implies nunique <= len(L)',
